@@ -245,9 +245,9 @@ where
                 run.fail(&key, &what, detail(json!(null)));
                 return false;
             }
-            (None, Err(_)) => {
-                let m = vcore::catch(|| ()).err().unwrap_or_default();
-                run.fail(&key, &format!("panicked outside the parallel phase {m}"), detail(json!(null)));
+            (None, Err(p)) => {
+                let m = p.downcast_ref::<String>().cloned().or_else(|| p.downcast_ref::<&str>().map(|s| s.to_string())).unwrap_or_default();
+                run.fail(&key, &format!("panicked after the parallel phase (result / top_sort): {m}"), detail(json!(null)));
                 return false;
             }
             (None, Ok(pivs)) => {
